@@ -32,6 +32,7 @@ SEEDS = {
  'C11b': ('C11', 'back process_event_internal: blocking test skipped for events re-dispatched from the deferred queue', 'deferred event pending when a terminate / interrupt state becomes active'),
  'C14b': ('C14', 'puml parse_row_right: action length clamped to 0 when the guard precedes the action list (same edit as C14a, found independently)', 'a transition line of the form  A -> B : ev [guard] / action'),
  'C15b': ('C15', 'backmp11 event_occurrence: user-provided copy constructor that forgets m_marked_for_deletion', 'machine copied right after a LIMITED pool drain (process_event_pool(n)) - the copy replays the processed occurrence'),
+ 'C16b': ('C16', 'back11 serialize: m_states archived only when the machine is not contained ("the history policy has it")', 'nested back11 machine saved while the submachine is active and past its initial state'),
  'C17a': ('C17', 'back is_flag_active fold: wrong early break', '>= 3 regions where regions 0 and 1 agree and a later one differs'),
  'C17b': ('C17', 'backmp11 recursive_visit_set: submachine_needs_traversal computed from the submachine\'s DIRECT states only (a type computation)', 'flag carried only by a state two or more submachine levels below the queried machine'),
  'C18a': ('C18', 'back defer_event_kleene_helper: binds the functor argument ev (default-constructed type carrier) instead of any_cast<Event>(m_event)', 'Kleene row that defers (front::Defer) an event whose payload differs from a default-constructed one'),
